@@ -540,7 +540,7 @@ fn gen_pre(rng: &mut Rng) -> Vec<PreFile> {
         }
         stamps.push(st);
         let content = match rng.below(3) {
-            0 => Content::Valid { idx: rng.below(6), total: 1 + rng.below(8), mu: Mu::None },
+            0 => Content::Valid { idx: rng.below(6), total: rng.below(9), mu: Mu::None },
             1 => Content::Valid { idx: rng.below(6), total: 1 + rng.below(8), mu: gen_mu(rng) },
             _ => Content::Raw(gen_garbage(rng)),
         };
@@ -704,6 +704,13 @@ fn plan_jobs(rng: &mut Rng, tier: Tier, blocks: &mut Vec<String>) -> Vec<Job> {
         let mut j = base_job(fixed[0].clone(), Mode::Seq, Pol::Barrier, None, "corpus:equal-length-pipeline");
         j.pre = vec![PreFile::Own(1000, Content::Valid { idx: 1, total: 2, mu: Mu::None })];
         jobs.push(j);
+        // a leftover whose UN-checksummed metadata is degenerate (total_nodes = 0, index beyond the total): it
+        // passes the integrity check and reaches the recovery log
+        for (mode, idx, total) in [(Mode::Seq, 0usize, 0usize), (Mode::Par(2), 3, 0), (Mode::Seq, 9, 1)] {
+            let mut j = base_job(fixed[1].clone(), mode, Pol::Barrier, Some(1), "corpus:degenerate-metadata");
+            j.pre = vec![PreFile::Own(1000, Content::Valid { idx, total, mu: Mu::None })];
+            jobs.push(j);
+        }
     }
 
     // (1b) a configuration that is absent or not enabled: plain engines, the directory is not even looked at
